@@ -880,7 +880,7 @@ func (c11) Exec(c string) (string, []Fail) {
 						for k := 0; k < len(c); k++ {
 							h = (h*31 + int(c[k])) & 0xffff
 						}
-						every = h%80 == 0 || (maxL <= 80 && h%8 == 0)
+						every = (h%80 == 0 && maxL <= 200) || (maxL <= 80 && h%8 == 0)
 						nrot = 3
 						if h%8 == 1 {
 							nrot = 12
@@ -1045,6 +1045,9 @@ func (c11) Exec(c string) (string, []Fail) {
 			for _, k := range c11Keys(got, true, false) {
 				cnt[k]++
 			}
+			// (two pairs of sites can give the same record — same clipped window, same match strings —: the records are
+			// counted with their multiplicity)
+			wantBy := map[string]int{}
 			for _, x := range exp {
 				want := 0
 				for k, st := range fragStart {
@@ -1059,8 +1062,11 @@ func (c11) Exec(c string) (string, []Fail) {
 				if want > 1 {
 					stat("frag-in-overlap")
 				}
-				if cnt[x.key(true)] != want {
-					fail("frag.count", "amplicon %s lies inside %d pieces but is reported %d times", x.key(true), want, cnt[x.key(true)])
+				wantBy[x.key(true)] += want
+			}
+			for _, x := range exp {
+				if k := x.key(true); cnt[k] != wantBy[k] {
+					fail("frag.count", "amplicon %s: the pairs of sites giving it lie inside %d pieces in all but it is reported %d times", k, wantBy[k], cnt[k])
 					break
 				}
 			}
@@ -1238,6 +1244,9 @@ func (c11) Exec(c string) (string, []Fail) {
 				for _, k := range gk {
 					cnt[k]++
 				}
+				// (two pairs of sites can give the same record — same clipped window, same match strings —: the records are
+				// counted with their multiplicity)
+				wantBy := map[string]int{}
 				for _, e := range exp {
 					want := 0
 					for _, pc := range pieces {
@@ -1248,8 +1257,11 @@ func (c11) Exec(c string) (string, []Fail) {
 					if want > 1 {
 						stat("cli-in-overlap")
 					}
-					if cnt[e.key(true)] != want {
-						fail("cli.count", "amplicon %s lies inside %d pieces but is reported %d times", e.key(true), want, cnt[e.key(true)])
+					wantBy[e.key(true)] += want
+				}
+				for _, e := range exp {
+					if k := e.key(true); cnt[k] != wantBy[k] {
+						fail("cli.count", "amplicon %s: the pairs of sites giving it lie inside %d pieces in all but it is reported %d times", k, wantBy[k], cnt[k])
 						break
 					}
 				}
@@ -1809,6 +1821,16 @@ func (c11) Gen(rng *rand.Rand, tier string, emit func(string)) {
 		}
 		layout := rng.Intn(5)
 		far := rng.Intn(3) == 0
+		if far && (fl < 7 || rl < 7) { // long templates: primers specific enough to keep the number of chance pairs small
+			fl, rl = 7+rng.Intn(3), 7+rng.Intn(3)
+			o.fwd, o.rev = c11RandPrimer(rng, fl, 0), c11RandPrimer(rng, rl, 0)
+			F, _ = c11Primer(o.fwd)
+			R, _ = c11Primer(o.rev)
+			D, C = F, c11RcSets(R)
+			if rng.Intn(2) == 0 {
+				D, C = R, c11RcSets(F)
+			}
+		}
 		gapOf := func() int {
 			if far {
 				return 70 + rng.Intn(230)
